@@ -58,7 +58,9 @@ def r2_2_message_type(ctx, prog):
         cc = pa.calls_to(r"MessageClass as std::convert::TryFrom<u8>>::try_from$")
         mc = pa.calls_to(r"MessageMethod as std::convert::TryFrom<u16>>::try_from$")
         nw = pa.calls_to(r"message::MessageType::new$")
-        if not (cc and mc and nw):
+        r = C.expr_of(pa, pa.ret)
+        literal = isinstance(r, tuple) and r and r[0] == "MessageType" and not nw        # built with a struct literal
+        if not (cc and mc and (nw or literal)):
             continue
         done += 1
         cbits = B.evaluate(C.expr_of(pa, cc[0][2][0]), {leaf: 16})
@@ -67,8 +69,12 @@ def r2_2_message_type(ctx, prog):
         expm = [("in", leaf, i) for i in range(4)] + [("in", leaf, i) for i in range(5, 8)] + [("in", leaf, i) for i in range(9, 14)] + [0] * 4
         ctx.ob("R2.2", "decode:class-bits", cbits[:16] == expc, "class bits = %s" % B.describe(cbits, 8), info["where"])
         ctx.ob("R2.2", "decode:method-bits", mbits[:16] == expm, "method bits = %s" % B.describe(mbits), info["where"])
-        a = C.expr_of(pa, nw[0][2])
-        ctx.ob("R2.2", "decode:argument-order", "MessageMethod" in repr(a[0]) and "MessageClass" in repr(a[1]), "MessageType::new(%s)" % show(a)[:160], info["where"])
+        if nw:
+            a = C.expr_of(pa, nw[0][2])
+        else:
+            names = [f["name"] for f in prog.adt(MT)["variants"][0]["fields"]]
+            a = (r[1 + names.index("method")], r[1 + names.index("class")]) if {"method", "class"} <= set(names) and len(r) == len(names) + 1 else ("?", "?")
+        ctx.ob("R2.2", "decode:argument-order", "MessageMethod" in repr(a[0]) and "MessageClass" in repr(a[1]), "MessageType{method, class} = (%s)" % show(a)[:160], info["where"])
         break
     ctx.floor("R2.2", "decode paths", done, 1)
     # MessageClass::try_from maps 0..3 in declaration order; MessageMethod::try_from rejects bits 12-15
@@ -419,7 +425,7 @@ def r2_7_u16_list(ctx, prog, rule="R2.7"):
             ctx.ob(rule, "writer:stride", ok, why, winfo["where"])
         n_writers = len(seen_w)
     ctx.floor(rule, "writer closures", n_writers, 1)
-    paths, info = C.explore_fn(prog, "<%s as stun_rs::attributes::DecodeAttributeValue>::decode" % UA, "x", [r"\{closure"])
+    paths, info = C.explore_fn(prog, "<%s as stun_rs::attributes::DecodeAttributeValue>::decode" % UA, "x", [r"\{closure"], log_asserts=True)
     ctx.fn(info["body"])
     seen = {}
     for pa in paths:
@@ -442,8 +448,33 @@ def r2_7_u16_list(ctx, prog, rule="R2.7"):
             cnt_ok = any(repr(("op:Div",))[1:-2] in repr(x) and repr(x).count(", 2)") >= 1 for x in nx)
             ix = [C.expr_of(pa, e[2]) for e in pa.calls if re.search(r"::index$", e[1])]
             st_ok = all(isinstance(x[1], tuple) and x[1][0] == "RangeFrom" and isinstance(x[1][1], tuple) and x[1][1][0] == "op:Mul" and x[1][1][2] == 2 for x in ix)
+            # chunk form: `for chunk in raw_value.chunks_exact(2) { read_u16(chunk) }` reads len / 2 entries at 2 x i by the std
+            # semantics of chunks_exact; every read must take such a chunk of the whole value
+            from .. import linproof as LP
+            chunk_ok = None
+            for i2, e2 in enumerate(pa.log):
+                if e2[0] == "call" and re.search(r"ByteOrder>::read_u16$", e2[1]):
+                    src = LP.strip(C.expr_of(pa, e2[2], 0, i2)[0])
+                    this = False
+                    if isinstance(src, tuple) and len(src) == 2 and isinstance(src[0], tuple) and src[0][0].endswith("::next") and re.match(r"\.some(\.\*)?$", src[1]):
+                        ch = LP.strip(src[0][1])
+                        while isinstance(ch, tuple) and len(ch) == 2 and isinstance(ch[0], str) and ch[0].endswith("::into_iter"):
+                            ch = LP.strip(ch[1])
+                        if isinstance(ch, tuple) and re.search(r"chunks_exact$", ch[0]) and len(ch) == 3 and ch[2] == 2:
+                            root, lo, hi = LP.Lin().view(ch[1])
+                            this = "raw_value" in repr(root) and lo == {}
+                    chunk_ok = this if chunk_ok is None else (chunk_ok and this)
+            if chunk_ok is None:
+                # no entry read on this path (empty list): the chunk iterator over the whole value must still be what is consumed
+                for i2, e2 in enumerate(pa.log):
+                    if e2[0] == "call" and re.search(r"slice::<impl \[.*\]>::chunks_exact$", e2[1]):
+                        a2 = C.expr_of(pa, e2[2], 0, i2)
+                        root, lo, hi = LP.Lin().view(a2[0])
+                        chunk_ok = a2[1] == 2 and "raw_value" in repr(root) and lo == {}
+            if chunk_ok:
+                cnt_ok = st_ok = True
             ok = ok and cnt_ok and st_ok
-            why = "accepted iff len %% %d == 0; count %s; stride ok=%s" % (modulus, [show(x)[:60] for x in nx[:1]], st_ok)
+            why = "accepted iff len %% %d == 0; count %s; stride ok=%s%s" % (modulus, [show(x)[:60] for x in nx[:1]], st_ok, " (chunks_exact(2))" if chunk_ok else "")
         else:
             why = "rejected iff len %% %d != 0" % modulus
         key = "reader:%s" % ("accept" if okk else "reject")
